@@ -429,6 +429,9 @@ enum Delivery {
     TwoDeviations,
     /// long input: listed plans only
     Listed,
+    /// every uniform chunk size 1..=L (a threshold on "how much is already buffered" flips somewhere in
+    /// between), plus everything TwoDeviations does
+    SweepAndTwo,
 }
 
 fn plan_to_json(p: &[Step]) -> Value {
@@ -493,6 +496,21 @@ fn plans_for(case: &Case, listed: &[Vec<Step>]) -> Vec<Vec<Step>> {
                             out.push(with_interrupts(&base, &[a, b]));
                         }
                     }
+                }
+            }
+            out
+        }
+        Delivery::SweepAndTwo => {
+            let mut c2 = case.clone();
+            c2.mode = Delivery::TwoDeviations;
+            let mut out = plans_for(&c2, listed);
+            for k in 1..=len {
+                out.push(vec![Step::Give(k); (len + k - 1) / k]);
+                // the same with the first chunk shorter, so that chunk boundaries fall elsewhere
+                if k >= 2 {
+                    let mut v = vec![Step::Give(k / 2)];
+                    v.extend(vec![Step::Give(k); (len + k - 1) / k]);
+                    out.push(v);
                 }
             }
             out
@@ -708,6 +726,32 @@ fn build_long_token_cases() -> Vec<Case> {
             }
         }
     }
+    // integers (small ones and every extreme value) FOLLOWED by a long remainder: the reader has much more
+    // than the token buffered when it parses it, or very little, depending on the delivery
+    let tails = ["the quick brown fox jumps over the lazy dog and keeps on running\nsecond line\n", " 17 rest of this fairly long line, well beyond forty bytes of it\r\nnext\r\n"];
+    let mut heads: Vec<(Ty, String)> = extreme_tokens();
+    heads.extend([(Ty::I32, "-3".to_string()), (Ty::U8, "7".to_string()), (Ty::I64, "0".to_string()), (Ty::U128, "12345678901234567890123".to_string()), (Ty::I128, "-12345678901234567890123".to_string())]);
+    for (ty, tok) in heads {
+        for (ti, tail) in tails.iter().enumerate() {
+            for lead in ["", "\n "] {
+                let input = format!("{lead}{tok}{}{tail}", if ti == 0 { "\n" } else { "" }).into_bytes();
+                for script in [
+                    vec![Op::Tok(ty), Op::Line, Op::Line, Op::Line, Op::Eof],
+                    vec![Op::Tok(ty), Op::Tok(Ty::Char), Op::Line, Op::Lines],
+                    vec![Op::Tok(ty), Op::Tok(Ty::Str), Op::Tok(Ty::Str), Op::Line, Op::Eof],
+                    vec![Op::Eof, Op::Tok(ty), Op::Eof, Op::Line],
+                ] {
+                    if reference(&input, &script).is_some() {
+                        cases.push(Case { input: input.clone(), script, mode: Delivery::SweepAndTwo });
+                    }
+                }
+            }
+        }
+    }
+    // several integers of different widths in one long line, then lines
+    let input = b"-128 255 -32768 65535 -2147483648 4294967295 -9223372036854775808 18446744073709551615 tail\nline two\n".to_vec();
+    cases.push(Case { input: input.clone(), script: vec![Op::Tup(vec![Ty::I8, Ty::U8, Ty::I16, Ty::U16, Ty::I32, Ty::U32, Ty::I64, Ty::Str]), Op::Tok(Ty::Str), Op::Line, Op::Line, Op::Eof], mode: Delivery::SweepAndTwo });
+    cases.push(Case { input, script: vec![Op::Vec(Ty::I128, 8), Op::Line, Op::Lines], mode: Delivery::SweepAndTwo });
     // vectors and multi-line text
     let input = b"3\n10 -20 30\r\nsome words here\r\n\r\nlast line".to_vec();
     cases.push(Case { input: input.clone(), script: vec![Op::Tok(Ty::Usize), Op::Vec(Ty::I32, 3), Op::Line, Op::Line, Op::Lines, Op::Eof], mode: Delivery::TwoDeviations });
@@ -980,7 +1024,7 @@ fn main() {
     run.cov("distinct_expected_outcomes", tot.outcomes.len() as u64);
     run.cov("failing_cases_per_family", json!(fam_counts));
     run.cov("exhaustive", true);
-    run.cov("rule", "evaluations = executions of the real Reader (one per (input, script, delivery plan)); distinct_nontrivial = distinct (input, script) pairs accepted by the reference parser as valid scripts. Short inputs (<= 10 bytes quick / 13 thorough, built from tokens x separators incl. CRLF, lone CR, blank lines): ALL 2^(L-1) chunkings, plus every placement of <= 2 Interrupted for L <= 5 (quick) / 6 and <= 1 for L <= 7 / 9; extreme values of all 12 integer types, tuples of arity 2..8 and multi-line text: every placement of <= 2 deviations (short read / Interrupted) plus byte-at-a-time; inputs as long as the observed internal buffer with the interesting bytes at every offset around the boundary under 21 listed plans");
+    run.cov("rule", "evaluations = executions of the real Reader (one per (input, script, delivery plan)); distinct_nontrivial = distinct (input, script) pairs accepted by the reference parser as valid scripts. Short inputs (<= 10 bytes quick / 13 thorough, built from tokens x separators incl. CRLF, lone CR, blank lines): ALL 2^(L-1) chunkings, plus every placement of <= 2 Interrupted for L <= 5 (quick) / 6 and <= 1 for L <= 7 / 9; extreme values of all 12 integer types, tuples of arity 2..8 and multi-line text: every placement of <= 2 deviations (short read / Interrupted) plus byte-at-a-time; integers of every width (extreme values included) followed by 60-90 further bytes under mixed token/line scripts: additionally every uniform chunk size 1..=L; inputs as long as the observed internal buffer with the interesting bytes at every offset around the boundary under 21 listed plans");
     for c in all.iter().step_by((all.len() / 6).max(1)).take(6) {
         run.sample(json!({"input": describe(&c.input), "script": c.script.iter().map(op_to_json).collect::<Vec<_>>(), "expected": reference(&c.input, &c.script)}));
     }
